@@ -220,46 +220,16 @@ func Ifs(fn *ssa.Function) []*ssa.If {
 // Note: when an If has both successors equal, the edge identity is ambiguous; such
 // degenerate Ifs are not produced for the guards we match.
 func Reachable(fn *ssa.Function, removed map[Edge]bool) map[*ssa.BasicBlock]bool {
-	seen := map[*ssa.BasicBlock]bool{}
 	if len(fn.Blocks) == 0 {
-		return seen
+		return map[*ssa.BasicBlock]bool{}
 	}
-	work := []*ssa.BasicBlock{fn.Blocks[0]}
-	seen[fn.Blocks[0]] = true
-	for len(work) > 0 {
-		b := work[len(work)-1]
-		work = work[:len(work)-1]
-		for _, s := range b.Succs {
-			if removed[Edge{b, s}] {
-				continue
-			}
-			if !seen[s] {
-				seen[s] = true
-				work = append(work, s)
-			}
-		}
-	}
-	return seen
+	return reachEdges(fn.Blocks[0], removed)
 }
 
 // ReachableFrom computes blocks reachable from start (inclusive) without removed edges.
+// Both searches are edge-sensitive at blocks that branch on a phi they define (thread.go).
 func ReachableFrom(start *ssa.BasicBlock, removed map[Edge]bool) map[*ssa.BasicBlock]bool {
-	seen := map[*ssa.BasicBlock]bool{start: true}
-	work := []*ssa.BasicBlock{start}
-	for len(work) > 0 {
-		b := work[len(work)-1]
-		work = work[:len(work)-1]
-		for _, s := range b.Succs {
-			if removed[Edge{b, s}] {
-				continue
-			}
-			if !seen[s] {
-				seen[s] = true
-				work = append(work, s)
-			}
-		}
-	}
-	return seen
+	return reachEdges(start, removed)
 }
 
 // Returns lists the Return instructions of fn.
